@@ -30,7 +30,7 @@ class Scenario:
         self.cfg = cfg
 
     def build(self):
-        from amaranth.hdl import Module, Signal, ClockDomain, Cat
+        from amaranth.hdl import Module, Signal, ClockDomain, Cat, signed
         cfg = self.cfg
         m = Module()
         self.a = a = ClockDomain("a")
@@ -46,8 +46,12 @@ class Scenario:
         self.qc = qc = Signal(2, name="qc")           # circuit: comb ca & ~rb
         self.pa = Signal(2, name="pa")                # the same, computed by a sync-replacement process
         self.pc = Signal(2, name="pc")                # the same, computed by a comb-replacement process
+        # a signed signal whose halves are driven combinationally from two different fragments (two processes of one delta cycle)
+        self.sg = sg = Signal(signed(4), name="sg", init=-3)
         sub = Module()
         sub.d.comb += x.eq(ca ^ rb)
+        sub.d.comb += sg[2:].eq(ca)
+        m.d.comb += sg[:2].eq(rb)
         m.submodules.sub = sub
         m.d.a += ca.eq(ca + 1 + inp[0])
         m.d.b += rb.eq(ca ^ inp)
@@ -118,7 +122,7 @@ class Scenario:
             # final state of every signal, read straight from the engine (a testbench cannot be added to a running simulation)
             try:
                 final = [eng.get_value(sig) for sig in (self.ca, self.rb, self.x, self.y, self.qa, self.qc, self.pa, self.pc)]
-                final += [eng.get_value(self.mem.data[i]) for i in range(2)]
+                final += [eng.get_value(self.mem.data[i]) for i in range(2)] + [eng.get_value(self.sg)]
             except Exception as ex:
                 final = []
                 errs.append(f"final read raised {type(ex).__name__}: {ex}")
@@ -136,8 +140,12 @@ class Scenario:
                 return ctx.elapsed_time().femtoseconds
 
             def snap(tag):
-                vals = tuple(ctx.get(sig) for sig in (s.ca, s.rb, s.x, s.y, s.qa, s.qc, s.pa, s.pc, s.inp, s.rp.data))
-                ca_v, rb_v, x_v, y_v, qa_v, qc_v, pa_v, pc_v, inp_v, mem_v = vals
+                vals = tuple(ctx.get(sig) for sig in (s.ca, s.rb, s.x, s.y, s.qa, s.qc, s.pa, s.pc, s.inp, s.rp.data, s.sg))
+                ca_v, rb_v, x_v, y_v, qa_v, qc_v, pa_v, pc_v, inp_v, mem_v, sg_v = vals
+                want_sg = (rb_v | (ca_v << 2))
+                want_sg = want_sg - 16 if want_sg & 8 else want_sg
+                if sg_v != want_sg:
+                    errs.append(f"tb{tid} {tag} t={now()}: signed signal driven from two fragments reads {sg_v}, its halves give {want_sg}")
                 log.append((tid, tag, now(), vals))
                 # absolute oracles that hold at every instant a testbench can observe
                 if x_v != ca_v ^ rb_v or y_v != (x_v + inp_v) & 7 or qc_v != ca_v & ~rb_v & 3:
